@@ -14,8 +14,8 @@
 
    Oracles: the number of times the victim sleeps inside ONE lock call is at most
    LONG_WAIT_THRESHOLD + 2 (the constant is read from the tree under test; checked while it is still inside, by the bargers, and on
-   return); word-level: no acquiring CAS succeeds from a word with the long-wait bit set
-   when the acquiring thread has not slept during its current operation.  */
+   return); word-level: no acquiring CAS in a fast path (nsync_mu_lock / rlock / trylock / rtrylock, run
+   only by threads that have not queued) succeeds from a word with the long-wait bit set.  */
 #include "sc.h"
 #include "dll.h"
 #include "sem.h"
@@ -44,8 +44,12 @@ static void word_cb (int idx, int op, uint32_t old_v, uint32_t new_v, int ok) {
 	if ((new_v & MU_LONG_WAIT) && !(old_v & MU_LONG_WAIT)) rt_cover (CV_LONGWAIT_SET);
 	if ((old_v & MU_LONG_WAIT) != 0) {
 		int acquires = ((new_v & SC_MU_WLOCK) && !(old_v & SC_MU_WLOCK)) || ((new_v & SC_MU_RLOCK_FIELD) > (old_v & SC_MU_RLOCK_FIELD));
-		if (acquires && rt_op_sleeps () == 0)
-			rt_violation ("acquired-under-long-wait", rt_thread_op (rt_self ()), "thread %d acquired the mutex (word %#x -> %#x) although the long-wait bit was set and it had not waited", rt_self (), old_v, new_v);
+		/* the fast paths of the four lock entry points are only ever run by a thread that has not queued;
+		   nsync_mu_lock_slow_ may be run by a woken (designated waker) thread, which is allowed to acquire */
+		const char *at = rt_thread_at (rt_self ());
+		int never_queued = !strcmp (at, "nsync_mu_trylock") || !strcmp (at, "nsync_mu_rtrylock") || !strcmp (at, "nsync_mu_lock") || !strcmp (at, "nsync_mu_rlock");
+		if (acquires && never_queued)
+			rt_violation ("acquired-under-long-wait", at, "thread %d acquired the mutex in %s (word %#x -> %#x) although the long-wait bit was set and it had not queued", rt_self (), at, old_v, new_v);
 	}
 }
 
